@@ -12,7 +12,6 @@ Layers (each fully proved):
                            this file
 -/
 import JubakoModel.Lemmas.DirFileI
-import JubakoModel.Theorems.C03
 
 namespace Jubako
 
@@ -516,7 +515,7 @@ theorem dirfile_sorted_readback (H : Bytes → Bytes) (vendor uuid freeData : By
     cases v <;> simp only [Val.hasType] at h2
     rfl
   · rw [d.stores_getD st hst] at hchk
-    refine c03_stored_order _ _ fixed _ ?_ hchk
+    refine stored_order _ _ fixed _ ?_ hchk
     intro a ha
     simp only [DirIn.arrayKeys, List.mem_map] at ha
     obtain ⟨e, he, rfl⟩ := ha
